@@ -14,6 +14,9 @@ def lookupS (l : List (String × String)) (k : String) : String := ((l.find? (·
 partial def concStep (args : List String) : String :=
   match args with
   | "freshcredit" :: rest => concStep ("balances" :: rest)
+  -- whether a request is honoured is a function of that request alone (C04 `verify_iff`, `altered_refused`): however
+  -- many identities are being verified at once, every genuine fresh request is accepted and every altered one refused
+  | "sigstorm" :: _ => "ok goodrefused=0 alteredaccepted=0 other=0"
   | "linkrace" :: rest =>
     -- as `balances`, and no trial balance survives a link (C13 `trial_never_both_nor_lost`)
     if findStr "trials" rest == some "0" then concStep ("balances" :: rest)
